@@ -68,6 +68,22 @@ def helper9(flag, v):
     return 1 > 0
 
 
+def helper10(sig, other, val, bits):
+    # for loop whose body ends in return: the statements after the loop run when no iteration matched
+    for i in range(3):
+        if bits[i]:
+            sig <<= val + i
+            return
+    other <<= val
+
+
+def helper11(val, bits):
+    for i in range(3):
+        if bits[i]:
+            return val + i
+    return val - 1
+
+
 def helper6(acc, p, q, c0, c1):
     # the if-body falls through, a later branch returns, code follows the statement
     if c0:
@@ -303,6 +319,17 @@ CORE = [
     ["old = bool(vb)", "vb @= self.c", "if old:", "    self.o1 <<= self.a", "self.ob <<= vb"],
     ["old = bool(vb)", "vb.value = self.c and not self.d", "self.ob <<= old", "if vb:", "    self.o2 <<= self.b"],
     ["t = bool(x == 3)", "x @= x + 1", "if t:", "    self.o1 <<= x"],
+    # a selected value bound to a name first and assigned to a variable later: the variable changes at the assignment, not where the value was computed
+    ["t = self.a if self.c else Null", "self.o1 <<= x", "x @= t", "self.o2 <<= x"],
+    ["t = self.a if self.c else Full", "self.o1 <<= x", "x @= 0", "self.p <<= x", "x @= t", "self.o2 <<= x"],
+    ["t = helper0(self.a, self.b, self.c)", "self.o1 <<= x", "x.value = t", "self.o2 <<= x + 1"],
+    ["t = self.b if self.d else (Null if self.c else self.a)", "y @= x", "x @= t", "self.o1 <<= y", "self.o2 <<= x"],
+    # loops that return from a helper, code after the loop
+    ["helper10(self.o1, self.o2, self.b, self.a)"],
+    ["helper10(self.o1, self.o2, x, self.a)", "x @= x + 1", "self.p <<= x"],
+    ["self.o1 <<= helper11(self.b, self.a)"],
+    ["x @= helper11(x, self.a)", "self.o2 <<= x + self.b"],
+    ["if self.c:", "    helper10(self.o1, self.o2, self.b, self.a)", "else:", "    self.o1 <<= helper11(self.b, self.a)", "self.p <<= self.b"],
     # helper calls with side effects inside a test that folds to a constant: the side effects are part of the program
     ["if helper8(self.o1, self.a):", "    self.o2 <<= self.b"],
     ["if helper9(self.ob, x):", "    pass", "self.o1 <<= x"],
